@@ -90,7 +90,10 @@ func incrementBytes(in []byte) []byte {
 	for i := len(rv) - 1; i >= 0; i-- {
 		rv[i] = rv[i] + 1
 		if rv[i] != 0 {
-			return rv // didn't overflow, so stop
+			// didn't overflow, so stop; the bytes after i overflowed
+			// and are dropped so that rv is the smallest key greater
+			// than every key with the prefix in
+			return rv[:i+1]
 		}
 	}
 	return nil // overflowed
